@@ -224,9 +224,10 @@ class ContractDB:
             args = node.args.args + node.args.kwonlyargs
             for a in args:
                 params.append((a.arg, parse_type(a.annotation)))
-            if dname in ("spec", "spec_inline"):
+            if dname in ("spec", "spec_inline", "spec_abstract"):
                 sd = SpecDef(node.name)
                 sd.inline = dname == "spec_inline"
+                sd.abstract = dname == "spec_abstract"
                 sd.params = params
                 sd.ret = parse_type(node.returns) if node.returns is not None else ("int",)
                 sd.file = fn
